@@ -102,16 +102,34 @@ class Check:
         rnd = random.Random(s.seed)
         rnd.shuffle(fams)
         jobs = []
+        kept = []
+        import concurrent.futures
+        try:
+            build.lib_ir(s.d)
+        except Exception as e:
+            s.problems.append('the tree does not compile to IR: %s' % str(e)[-900:])
+            return
+        irpool = concurrent.futures.ThreadPoolExecutor(max_workers=8)
+        irfut = {}
         for f in fams:
-            ll = build.harness_ir(s.d, os.path.join(VERIF, 'harness', f.harness), f.defs)
+            key = (f.harness, f.defs)
+            if key not in irfut:
+                irfut[key] = irpool.submit(build.harness_ir, s.d, os.path.join(VERIF, 'harness', f.harness), f.defs)
+        for f in fams:
+            try:
+                ll = irfut[(f.harness, f.defs)].result()
+            except Exception as e:
+                s.problems.append('%s: the harness / the tree does not compile to IR: %s' % (f.name, str(e)[-700:]))
+                continue
+            kept.append(f)
             opts = dict(f.opts)
             opts['known'] = known_for_engine(s.prop, f.name, s.known)
             if f.witness:
                 opts['witness_stop'] = True
             jobs.append({'name': f.name, 'll': ll, 'entry': f.entry, 'opts': opts, 'weight': f.weight,
                          'keep_paths': max(f.validate, 3)})
-        # native replay programs are built concurrently with the symbolic runs' tail: one thread per distinct build
-        import concurrent.futures
+        irpool.shutdown()
+        # native replay programs are built concurrently with the symbolic runs: one thread per distinct build
         pool = concurrent.futures.ThreadPoolExecutor(max_workers=8)
         try:
             build.native_lib(s.d)
@@ -122,7 +140,8 @@ class Check:
             key = (f.harness, f.defs)
             if key not in futs:
                 futs[key] = pool.submit(s._native, f)
-        results = e1.run_all(jobs)
+        fams = kept
+        results = e1.run_all(jobs) if jobs else []
         for fu in futs.values():
             try:
                 fu.result()
